@@ -39,7 +39,7 @@ def run(chk):
                       'values are small ints / strs / None / lists of them; batches have two elements',
                       'a rejected batch may keep any of its valid elements (alts), as the statement allows']
   # 1. the model: TLC proves the invariant and the action property on the intended semantics
-  mc = ['C03_list.cfg', 'C03_list2_cov.cfg', 'C03_nest.cfg', 'C03_nestp.cfg', 'C03_obj.cfg', 'C03_objp.cfg', 'C03_dict_cov.cfg', 'C03_dictp_2.cfg']
+  mc = ['C03_list.cfg', 'C03_list2_cov.cfg', 'C03_nest.cfg', 'C03_nestp.cfg', 'C03_obj.cfg', 'C03_objp.cfg', 'C03_dict_cov.cfg', 'C03_dictro.cfg', 'C03_dictp_2.cfg']
   if thorough:
     mc += ['C03_dict.cfg', 'C03_dictp.cfg', 'C03_list2.cfg', 'C03_list_deep.cfg', 'C03_obj_deep.cfg']
   for cfg in mc:
@@ -60,6 +60,7 @@ def run(chk):
   # 2. replay
   models = {k: typedtree.Model(k) for k in ('list', 'list2', 'dict', 'obj', 'nest')}
   models_p = {'dict': typedtree.Model('dict', True)}      # the partial-mode dict has a schema of its own
+  model_ro = typedtree.Model('dict', False, 'dictro')     # the dict created with accessor_writable=False
 
   def model_of(kind, partial):
     return models_p[kind] if partial and kind in models_p else models[kind]
@@ -79,6 +80,10 @@ def run(chk):
                                    d1 * (2 if kind == 'list2' else 1), chk.seed, model_of(kind, partial)))
     if (thorough or not partial) and kind != 'list2':      # (the list2 configuration is an Avoid pass itself)
       add(typedtree.replay_simulated(chk, kind, partial, f'C03_sim_avoid_{tag}.cfg', n2, d2, chk.seed + 1, model_of(kind, partial)))
+  # the dict with accessor_writable=False: accessor-style writes are refused, methods keep working
+  add(typedtree.replay_simulated(chk, 'dict', False, 'C03_sim_dictro.cfg', n1, d1, chk.seed + 2, model_ro))
+  chk.require(hits.get('DSet:perm', 0) + hits.get('DSetAttr:perm', 0) > 0 and hits.get('DDel:perm', 0) > 0,
+              'vacuous: no refused accessor-style write replayed')
   chk.notes['action_outcome_hits'] = dict(sorted(hits.items()))
   chk.require(hits.get('valid_write_rejected', 0) == 0,
               f'the code rejected {hits.get("valid_write_rejected", 0)} writes the specification accepts '
